@@ -817,122 +817,82 @@ class PhaseField(_IModel):
 
             tic.Tac("Split", "Invariants", False)
 
-            g_e_pg = I1_e_pg**2 - 3 * I2_e_pg
+            # g >= 0: round-off must not make it negative for (nearly) hydrostatic tensors
+            g_e_pg = np.maximum(np.asarray(I1_e_pg**2 - 3 * I2_e_pg), 0.0)
             sqrt_g_e_pg = np.sqrt(g_e_pg)
 
-            g_neq_0 = g_e_pg != 0
-
-            arg = 1 / 2 * (2 * I1_e_pg**3 - 9 * I1_e_pg * I2_e_pg + 27 * I3_e_pg)
-            np.divide(
-                arg,
-                g_e_pg ** (3 / 2),
-                out=arg,
-                where=g_neq_0,
+            arg = np.asarray(
+                1 / 2 * (2 * I1_e_pg**3 - 9 * I1_e_pg * I2_e_pg + 27 * I3_e_pg)
             )
+            np.divide(arg, g_e_pg ** (3 / 2), out=arg, where=g_e_pg != 0)
 
             # Lode's angle such that 0 <= theta <= pi/3
-            theta = 1 / 3 * np.arccos(arg)
+            theta = 1 / 3 * np.arccos(np.clip(arg, -1.0, 1.0))
+
+            matrix = np.asarray(matrix_e_pg)
+            frobenius = np.sqrt(np.einsum("...ij,...ij->...", matrix, matrix))
+
+            # Eigenvalues, ascending
+            I1 = np.asarray(I1_e_pg)
+            val1_e_pg = I1 / 3 + 2 / 3 * sqrt_g_e_pg * np.cos(2 * np.pi / 3 + theta)
+            val2_e_pg = I1 / 3 + 2 / 3 * sqrt_g_e_pg * np.cos(2 * np.pi / 3 - theta)
+            val3_e_pg = I1 / 3 + 2 / 3 * sqrt_g_e_pg * np.cos(theta)
+
+            tic.Tac("Split", "Eigenvalues", False)
+
+            # The closed-form eigenprojectors divide by the gaps between the eigenvalues (and the
+            # eigenvalues themselves lose accuracy near a double root). Wherever two eigenvalues (nearly)
+            # coincide - hydrostatic, uniaxial, zero tensors... - the decomposition is computed
+            # numerically instead. This is decided Gauss point by Gauss point: one element may hold
+            # states of several kinds.
+            # (the round-off of the closed forms grows like eps * (|A| / sqrt(g))^3 * (sqrt(g) / gap)^2)
+            gap = np.minimum(val2_e_pg - val1_e_pg, val3_e_pg - val2_e_pg)
+            repeated = gap**2 * sqrt_g_e_pg <= 1e-6 * frobenius**3
+            distinct = ~repeated
+
+            M1 = np.zeros(matrix.shape)
+            M3 = np.zeros(matrix.shape)
 
             # -------------------------------------
-            # Init eigenvalues an eigenprojectors for case 4
-            # 𝜖1 = 𝜖2 = 𝜖3 ⇐⇒ 𝑔 = 0.
+            # Repeated eigenvalues: any orthonormal basis of the eigenspaces will do
             # -------------------------------------
-            val1_e_pg = I1_e_pg / 3
-            val2_e_pg = I1_e_pg / 3
-            val3_e_pg = I1_e_pg / 3
+            if repeated.any():
+                vals, vects = np.linalg.eigh(matrix[repeated])
+                val1_e_pg[repeated] = vals[:, 0]
+                val2_e_pg[repeated] = vals[:, 1]
+                val3_e_pg[repeated] = vals[:, 2]
+                M1[repeated] = vects[:, :, 0, None] * vects[:, None, :, 0]
+                M3[repeated] = vects[:, :, 2, None] * vects[:, None, :, 2]
 
-            # Init proj matrices
-            M1 = FeArray.zeros(*matrix_e_pg.shape)
-            M1[..., 0, 0] = 1
-            # M2 = FeArray.zeros(*matrix_e_pg.shape)
-            # M2[..., 1, 1] = 1
-            M3 = FeArray.zeros(*matrix_e_pg.shape)
-            M3[..., 2, 2] = 1
-
-            tic.Tac("Split", "proj case 4", False)
-
-            I_rg = 1 / 3 * ((I1_e_pg - sqrt_g_e_pg) * I_e_pg)
+                tic.Tac("Split", "proj repeated eigenvalues", False)
 
             # -------------------------------------
-            # 2. Two maximum eigenvalues
-            # 𝜖1 < 𝜖2 = 𝜖3 ⇐⇒ 𝑔 ≠ 0, 𝜃 = 𝜋∕3.
-            # arg = -1
-            # -------------------------------------
-
-            test2 = g_neq_0 & (theta == np.pi / 3)
-
-            case2 = np.unique(np.where(test2)[0])
-
-            if len(case2) > 0:
-                val1_e_pg[case2] += -2 / 3 * sqrt_g_e_pg[case2]
-                val2_e_pg[case2] += 1 / 3 * sqrt_g_e_pg[case2]
-                val3_e_pg[case2] += 1 / 3 * sqrt_g_e_pg[case2]
-
-                M1[case2] = (g_e_pg ** (-1 / 2) * (I_rg - matrix_e_pg))[case2]
-                # M2[case2] = 1 / 2 * (I_e_pg - M1)[case2]
-                M3[case2] = 1 / 2 * (I_e_pg - M1)[case2]
-
-                tic.Tac("Split", "proj case 2", False)
-
-            # -------------------------------------
-            # 3. Two minimum eigenvalues
-            # 𝜖1 = 𝜖2 < 𝜖3 ⇐⇒ 𝑔 ≠ 0, 𝜃 = 0.
-            # arg = 1
-            # -------------------------------------
-
-            test3 = g_neq_0 & (theta == 0)
-
-            case3 = np.unique(np.where(test3)[0])
-
-            if len(case3) > 0:
-                val1_e_pg[case3] += -1 / 3 * sqrt_g_e_pg[case3]
-                val2_e_pg[case3] += -1 / 3 * sqrt_g_e_pg[case3]
-                val3_e_pg[case3] += 2 / 3 * sqrt_g_e_pg[case3]
-
-                M3[case3] = (g_e_pg ** (-1 / 2) * (matrix_e_pg - I_rg))[case3]
-                M1[case3] = 1 / 2 * (I_e_pg - M3)[case3]
-                # M2[case3] = 1 / 2 * (I_e_pg - M3)[case3]
-
-                tic.Tac("Split", "proj case 3", False)
-
-            # -------------------------------------
-            # 1. Three distinct eigenvalues
+            # Three distinct eigenvalues [Q.-C. He Closed-form coordinate-free]
             # 𝜖1 < 𝜖2 < 𝜖3 ⇐⇒ 𝑔 ≠ 0, 𝜃 ≠ 0, 𝜃 ≠ 𝜋∕3.
             # -------------------------------------
+            if distinct.any():
+                # Compute projectors only on this subset — avoids full-(Ne,nPg) matmuls
+                v1_d, v2_d, v3_d = [
+                    v[distinct][:, None, None]
+                    for v in (val1_e_pg, val2_e_pg, val3_e_pg)
+                ]
+                mat_d = matrix[distinct]
 
-            test1 = g_neq_0 & (theta != 0) & (theta != np.pi / 3)
-
-            case1 = np.setdiff1d(
-                np.unique(np.where(test1)[0]), np.union1d(case2, case3)
-            )
-
-            if len(case1) > 0:
-                val1_e_pg[case1] += (
-                    2 / 3 * (sqrt_g_e_pg * np.cos(2 * np.pi / 3 + theta))[case1]
+                M1[distinct] = (
+                    (mat_d - v2_d * np.eye(3))
+                    @ (mat_d - v3_d * np.eye(3))
+                    / ((v1_d - v2_d) * (v1_d - v3_d))
                 )
-                val2_e_pg[case1] += (
-                    2 / 3 * (sqrt_g_e_pg * np.cos(2 * np.pi / 3 - theta))[case1]
-                )
-                val3_e_pg[case1] += 2 / 3 * (sqrt_g_e_pg * np.cos(theta))[case1]
-
-                # Compute projectors only on the case1 subset — avoids full-(Ne,nPg) matmuls
-                v1_c1 = val1_e_pg[case1]
-                v2_c1 = val2_e_pg[case1]
-                v3_c1 = val3_e_pg[case1]
-                mat_c1 = matrix_e_pg[case1]
-
-                M1[case1] = (
-                    (mat_c1 - v2_c1 * np.eye(3))
-                    @ (mat_c1 - v3_c1 * np.eye(3))
-                    / ((v1_c1 - v2_c1) * (v1_c1 - v3_c1))
-                )
-                M3[case1] = (
-                    (mat_c1 - v1_c1 * np.eye(3))
-                    @ (mat_c1 - v2_c1 * np.eye(3))
-                    / ((v3_c1 - v1_c1) * (v3_c1 - v2_c1))
+                M3[distinct] = (
+                    (mat_d - v1_d * np.eye(3))
+                    @ (mat_d - v2_d * np.eye(3))
+                    / ((v3_d - v1_d) * (v3_d - v2_d))
                 )
 
-                tic.Tac("Split", "proj case 1", False)
+                tic.Tac("Split", "proj distinct eigenvalues", False)
+
+            M1 = FeArray.asfearray(M1)
+            M3 = FeArray.asfearray(M3)
 
             # -------------------------------------
             # merge values in eigs_e_pg
